@@ -23,8 +23,13 @@ type PNest struct {
 // nor searched: sod answers "unknown key type", which is not judged here).
 type PName string
 
+// PEmb is embedded through a pointer: its field is promoted (PtrRec.EY) and unreachable while the
+// pointer is nil.
+type PEmb struct{ EY int }
+
 type PtrRec struct {
 	sod.Item
+	*PEmb
 	K  int
 	PS *string
 	PN *PNest
@@ -88,7 +93,7 @@ func ptrClone(x *PtrRec) *PtrRec {
 		v := *s
 		return &v
 	}
-	y := &PtrRec{Item: x.Item, K: x.K, PS: c(x.PS), V: PNest{PS: c(x.V.PS), S: x.V.S}, NS: x.NS}
+	y := &PtrRec{Item: x.Item, PEmb: x.PEmb, K: x.K, PS: c(x.PS), V: PNest{PS: c(x.V.PS), S: x.V.S}, NS: x.NS}
 	if x.PN != nil {
 		y.PN = &PNest{PS: c(x.PN.PS), S: x.PN.S}
 	}
